@@ -100,7 +100,13 @@ def audit_axioms(module, theorems):
     os.makedirs(BUILD, exist_ok=True)
     path = os.path.join(BUILD, f"Audit_{module.replace('.', '_')}.lean")
     with open(path, "w") as f:
-        f.write(f"import {module}\n")
+        mods = {module}
+        for t in theorems:
+            m = re.match(r"Acv\.(C\d+)\.", t)
+            if m:
+                mods.add("Acv.Props." + m.group(1))
+        for m in sorted(mods):
+            f.write(f"import {m}\n")
         for t in theorems:
             f.write(f"#print axioms {t}\n")
     rc, so, se = sh(["lake", "env", "lean", path], cwd=LEAN, timeout=1800)
